@@ -508,3 +508,31 @@ Theorem C01_extended_copy_bytes :
       exists m b, In (m, b) bs /\ g_dkey g m = g_dkey g n /\ b = src_bytes n.
 Proof. exact extended_copy_bytes. Qed.
 Print Assumptions C01_extended_copy_bytes.
+
+(* ExtendedCopy under every option set (nil callbacks) and with cancellation: the recorded trace is judged by
+   xcaccepts_opt; it is sound for the plain acceptor, so success => reference on the node + all roots' graphs *)
+Theorem C01_extended_copy_any_options :
+  forall (cs : cbset) (g : graph) (c : cfg) (tgt : node) (d0 : list node) (tr : list cevent) (s : cstate) (full : list event),
+    closed_nodes g d0 -> mt_consistent g -> c_mode c = MGraph ->
+    xcaccepts_opt cs g c tgt d0 tr = Some (s, full) -> returned (cs_st s) = Some true ->
+    tag (cs_st s) = Some tgt /\
+    forall r n, In r (c_root c :: c_xroots c) -> reach g r n -> has g (dst (cs_st s)) n = true.
+Proof. exact extended_copy_any_options. Qed.
+Print Assumptions C01_extended_copy_any_options.
+
+Theorem C01_extended_copy_elaboration :
+  forall (cs : cbset) (g : graph) (c : cfg) (tgt : node) (d0 : list node) (tr : list cevent) (s : cstate) (full : list event),
+    c_mode c = MGraph ->
+    xcaccepts_opt cs g c tgt d0 tr = Some (s, full) -> returned (cs_st s) = Some true ->
+    exists w, full = w ++ [Ret true] /\
+              xaccepts g c tgt d0 (w ++ [TagB tgt; TagE tgt; Ret true]) = Some (cs_st s).
+Proof. exact xcaccepts_sound. Qed.
+Print Assumptions C01_extended_copy_elaboration.
+
+(* no success without the tag: a recorded ExtendedCopy trace that returns success ends TagB node, TagE node, Ret true *)
+Theorem C01_extended_copy_success_is_tagged :
+  forall (cs : cbset) (g : graph) (c : cfg) (tgt : node) (d0 : list node) (tr : list cevent) (s : cstate) (full : list event),
+    xcaccepts_opt cs g c tgt d0 tr = Some (s, full) -> returned (cs_st s) = Some true ->
+    exists w, tr = w ++ [Ev (TagB tgt); Ev (TagE tgt); Ev (Ret true)].
+Proof. exact extended_copy_success_is_tagged. Qed.
+Print Assumptions C01_extended_copy_success_is_tagged.
